@@ -119,6 +119,11 @@ public:
     os.flush();
     return s;
   }
+  std::string staticLocalName(const VarDecl *vd) const {
+    const DeclContext *dc = vd->getParentFunctionOrMethod();
+    if (auto *fd = dyn_cast_or_null<FunctionDecl>(dc)) return qualName(fd) + "()::" + vd->getNameAsString();
+    return qualName(vd);
+  }
   std::string recordName(const CXXRecordDecl *rd) const {
     return typeStr(mCtx.getRecordType(rd));
   }
@@ -155,7 +160,8 @@ public:
       else sto = "local";
       o["sto"] = sto;
       o["dk"] = "Var";
-      if (sto != "local" && sto != "param") o["q"] = qualName(v);
+      if (sto == "static_local") o["q"] = staticLocalName(v);
+      else if (sto != "local" && sto != "param") o["q"] = qualName(v);
       o["did"] = (int64_t)(uintptr_t)v->getCanonicalDecl() & 0xffffffff;
       o["dt"] = typeStr(v->getType());
     } else if (auto *f = dyn_cast<FunctionDecl>(vd)) {
@@ -716,7 +722,7 @@ public:
     if (vd->getDeclContext()->isDependentContext()) return;
     if (isa<VarTemplatePartialSpecializationDecl>(vd)) return;
     if (vd->getType()->isDependentType()) return;
-    std::string q = qualName(vd);
+    std::string q = vd->isStaticLocal() ? staticLocalName(vd) : qualName(vd);
     std::string uniq = q + "@" + fileOf(vd->getLocation()) + ":" + std::to_string(lineOf(vd->getLocation()));
     const VarDecl *def = vd->getDefinition();
     bool isDef = vd->isThisDeclarationADefinition() != VarDecl::DeclarationOnly;
